@@ -27,7 +27,10 @@
       [mark_ancestors], [pop_next_job], [traverse], [get_next_node],
       [handle_pop], [node_less_of], [best_job], [is_empty].
     - pkg/scheduler/actions/utils/input_jobs.go : the queue filters of
-      [InitializeWithJobs] — [initialize].
+      [InitializeWithJobs] — [initialize] with [queue_ok]: a job whose queue is
+      missing, whose queue's parent is missing or whose queue is not a leaf is
+      skipped on its own ([continue]); every other job of the iteration is pushed.
+      [initialize_stop_at_missing_queue] is NOT the code (seeded change C16-4).
     - pkg/scheduler/actions/allocate/allocate.go : the loop of [Execute]
       (pop, attempt, commit or discard, re-push when tasks remain) — [alloc_loop];
       [attemptToAllocateJob] + [HasTasksToAllocate] are the oracle [attempt].
@@ -607,6 +610,24 @@ Section Order.
         else initialize st r
     end.
 
+  (** InitializeWithJobs with the "queue does not exist" guard ending the whole
+      collection loop (a [return] where the code has [continue]): the first job of
+      a missing queue met in the iteration order abandons every job visited after
+      it. NOT the code; it is the shape of seeded change C16-4. Kept only for the
+      documented refutation (C16_stop_at_first_ghost_refuted); nothing in the
+      model uses it. *)
+  Fixpoint initialize_stop_at_missing_queue (st : jo) (jobs : list job) : res jo :=
+    match jobs with
+    | [] => Ok st
+    | j :: r =>
+        match lookup_q qs (j_queue j) with
+        | None => Ok st
+        | Some _ =>
+            if queue_ok (j_queue j) then st1 <- push_job st j ;; initialize_stop_at_missing_queue st1 r
+            else initialize_stop_at_missing_queue st r
+        end
+    end.
+
   (** the loop of allocateAction.Execute. [attempt j c] is attemptToAllocateJob
       with the remaining capacity [c]: [None] = could not allocate (statement
       discarded), [Some (c', again)] = committed, remaining capacity [c'],
@@ -640,5 +661,9 @@ Section Order.
 
     Definition allocate (fuel : nat) (jobs : list job) (c : C) : res (list (job * bool)) :=
       st <- initialize jo_empty jobs ;; alloc_loop fuel st c [].
+
+    (** the action over [initialize_stop_at_missing_queue] (not the code; documentation only) *)
+    Definition allocate_stop_at_missing_queue (fuel : nat) (jobs : list job) (c : C) : res (list (job * bool)) :=
+      st <- initialize_stop_at_missing_queue jo_empty jobs ;; alloc_loop fuel st c [].
   End Alloc.
 End Order.
